@@ -70,13 +70,17 @@ Lemma check_loop_spec c : forall evs p seen p' r,
   (forall k, has_key k (p_pending p) = true -> has_key k (p_pending p') = true) /\
   (r = ROk ->
      NoDup (map e_hash evs) /\ (forall x, In x evs -> ~ In (e_hash x) seen) /\
-     (forall x, In x evs -> is_pending p x = true \/ (is_committed p x = false /\ verify p c x = VOk)) /\
+     (forall x, In x evs ->
+        (is_pending p x = true /\ is_expired (p_state p) (e_height x) (e_time x) = false) \/
+        (is_committed p x = false /\ verify p c x = VOk)) /\
      (forall x, In x evs -> is_pending p' x = true)).
 Proof.
   induction evs as [|e t IH]; intros p seen p' r; cbn [check_loop].
   - intros H; inversion H; subst. repeat split; auto; try constructor; intros; contradiction.
   - destruct (is_pending p e) eqn:Hp.
     + (* already pending *)
+      destruct (is_expired (p_state p) (e_height e) (e_time e)) eqn:Hexp.
+      { intros H; inversion H; subst. repeat split; auto; discriminate. }
       destruct (existsb (N.eqb (e_hash e)) seen) eqn:Hs.
       * intros H; inversion H; subst. repeat split; auto; discriminate.
       * intros H. apply IH in H. destruct H as [Hst [Hco [Hpe [Hk Hok]]]].
@@ -134,8 +138,8 @@ Proof.
         { intros x [<-|Hi]; auto. intros Hin. apply (Hns x Hi). right; auto. }
         split.
         { intros x [<-|Hi]; auto.
-          destruct (Hall x Hi) as [Hpx|[Hr1 Hr2]].
-          - unfold is_pending in Hpx. rewrite add_pending_pending in Hpx.
+          destruct (Hall x Hi) as [[Hpx Hxe]|[Hr1 Hr2]].
+          - left. split; [|exact Hxe]. unfold is_pending in Hpx. rewrite add_pending_pending in Hpx.
             fold (has_key (ekey x) (put_pending e (p_pending p))) in Hpx.
             destruct (key2_eqb (ekey e) (ekey x)) eqn:E.
             + exfalso. apply key2_eqb_eq in E. apply (Hns x Hi). left.
@@ -154,7 +158,9 @@ Lemma block_evidence_spec p c mx es p' r :
   (forall k, has_key k (p_pending p) = true -> has_key k (p_pending p') = true) /\
   (r = ROk ->
      forallb validate_basic es = true /\ NoDup (map e_hash es) /\
-     (forall x, In x es -> is_pending p x = true \/ (is_committed p x = false /\ verify p c x = VOk)) /\
+     (forall x, In x es ->
+        (is_pending p x = true /\ is_expired (p_state p) (e_height x) (e_time x) = false) \/
+        (is_committed p x = false /\ verify p c x = VOk)) /\
      (forall x, In x es -> is_pending p' x = true)).
 Proof.
   unfold block_evidence.
